@@ -8,6 +8,8 @@ import (
 	"golang.org/x/sys/unix"
 )
 
+var debugOracle bool
+
 func (s *searcher) run() bool {
 	m := newModel(s.recurse)
 	m.FindAdd = s.findAdd
@@ -186,8 +188,18 @@ func analyse(x *Exec) *RunResult {
 			injected = wr.Inst.ReadFaults
 		}
 		nOverflowErr, nOther := 0, 0
+		firstClose := 0
+		for _, c := range x.H {
+			if c.W == wr.Idx && c.Kind == OpClose && (firstClose == 0 || c.Inv < firstClose) {
+				firstClose = c.Inv
+			}
+		}
 		for _, e := range wr.E {
 			switch {
+			case firstClose > 0 && e.Step >= firstClose && e.Class == "EBADF":
+				// a syscall on the descriptor that Close has just closed: outside what C10
+				// quantifies over (benign filesystem histories, not concurrent Close)
+				cnt["errors_while_closing_not_judged"]++
 			case e.Class == "ErrEventOverflow":
 				nOverflowErr++
 			case e.Class == "EINTR" && injected > 0:
@@ -227,6 +239,13 @@ func analyse(x *Exec) *RunResult {
 				cnt["search_budget_exceeded"]++
 				continue
 			}
+			if s.stageAFails > 0 && !aborted {
+				// every otherwise acceptable linearisation loses something on the way in
+				for _, v := range s.stageA {
+					add(v)
+				}
+				continue
+			}
 			if aborted {
 				// a run cut short by a deadlock / budget is judged up to the cut:
 				// pending sends mean undelivered events are not losses
@@ -247,12 +266,17 @@ func analyse(x *Exec) *RunResult {
 		for k, v := range s.relax {
 			res.Relax[k] += v
 		}
+		if debugOracle {
+			fmt.Printf("ORDER w%d %v\n", wr.Idx, s.order)
+			for _, inc := range s.final.Incs {
+				fmt.Printf("INC %+v\n", inc)
+			}
+		}
 		if aborted {
 			continue
 		}
-		// Stage A
-		for _, v := range stageA(x, wr, s.final, s.calls) {
-			add(v)
+		if s.stageAFails > 0 {
+			cnt["linearisations_rejected_by_stage_a"] += s.stageAFails
 		}
 		// state oracle at the final quiescence
 		fm := s.atFinalWL
@@ -278,6 +302,11 @@ func analyse(x *Exec) *RunResult {
 					got[mk.Ino] = true
 					if !want[mk.Ino] {
 						b, _ := wr.Inst.Binding(int32(mk.Wd))
+						if who := foreignCaller(x, wr, b.Step); who != nil {
+							add(Violation{Kind: "foreign-watch", Watcher: wr.Idx, Site: who.Kind,
+								Detail: fmt.Sprintf("the kernel instance of watcher %d holds wd=%d (%q) that was put there by %s(%q) of watcher %d [%d,%d]: a call on one Watcher acted on another Watcher's descriptor", wr.Idx, mk.Wd, b.Path, who.Kind, who.Path, who.W, who.Inv, who.Ret)})
+							break
+						}
 						add(Violation{Kind: "kernel-mark-orphan", Watcher: wr.Idx, Site: "mark-without-listed-path",
 							Detail: fmt.Sprintf("at final quiescence the kernel still holds wd=%d (added as %q) but no listed path is backed by it; WatchList model=%v marks=%d", mk.Wd, b.Path, spellings(fm), len(snap.Marks))})
 						break
@@ -354,6 +383,26 @@ func analyse(x *Exec) *RunResult {
 	}
 	res.Violations = vs
 	return res
+}
+
+// foreignCaller finds the API call of another watcher that was executing the
+// syscall which bound a mark on wr's instance at the given step.
+func foreignCaller(x *Exec, wr *WatcherRec, step int) *APICall {
+	if wr.Inst == nil {
+		return nil
+	}
+	task := -1
+	for _, c := range wr.Inst.Calls {
+		if c.Kind == "add" && c.Step == step {
+			task = c.Task
+		}
+	}
+	for _, c := range x.H {
+		if c.TaskID == task && c.W != wr.Idx && c.Inv <= step && (c.Ret < 0 || step <= c.Ret) && c.Kind != OpNewWatcher {
+			return c
+		}
+	}
+	return nil
 }
 
 func spellings(m *Model) []string {
